@@ -60,6 +60,8 @@ Init == \E n \in 1 .. MaxFiles, P \in PieceLens : \E sizes \in [1 .. n -> 0 .. M
             /\ st = [pc |-> "run", sizes |-> sizes, P |-> P, i |-> 0, fi |-> 0, rem |-> 0, cur |-> 1, pieces |-> <<>>]
 Next == st.pc = "run" /\ st' = Step(st)
 Spec == Init /\ [][Next]_st
+FairSpec == Spec /\ WF_st(Next)
+Terminates == <>(st.pc # "run")
 \* C13: every piece is mapped to exactly the byte ranges of the stream slice it hashes
 MapCorrect == st.pc = "done" =>
                  /\ Len(st.pieces) = NP(st)
